@@ -12,4 +12,6 @@ CARGO_TARGET_DIR="$ROOT/target/plain" cargo build --offline --release -p sim_ite
 CARGO_TARGET_DIR="$ROOT/target/plain" cargo build --offline --release -p sim_generator || fail=1
 CARGO_TARGET_DIR="$ROOT/target/plain" cargo build --offline --release -p sim_serialize || fail=1
 CARGO_TARGET_DIR="$ROOT/target/plain" cargo build --offline --profile ship -p sim_serialize || fail=1
+RUSTFLAGS="--cfg rten_verif" CARGO_TARGET_DIR="$ROOT/target/a" cargo build --offline --release -p sim_load || fail=1
+RUSTFLAGS="--cfg rten_verif" CARGO_TARGET_DIR="$ROOT/target/a" cargo build --offline --profile ship -p sim_load || fail=1
 exit $fail
